@@ -272,6 +272,21 @@ pub fn run(rep: &mut StageReport, tier: &str, seed: u64, profile: &str) {
         c2.order = [0b01011u32, 0b11010, 0b00111 | (1 << 6), 0b11111 | (3 << 6) | (2 << 4)][i % 4];
         cfgs.push(c2);
     }
+    // steps with a sub-second part whose multiple crosses Duration::MAX only through the carried seconds
+    for m in [2u64, 3, 4, 5, 7, 10, 16, 64, 100, 1000, 65_536, u32::MAX as u64] {
+        for nanos in [1u32, 400_000_000, 500_000_000, 999_999_999] {
+            for dsec in [0u64, 1] {
+                let step = Duration::new((u64::MAX / m).saturating_sub(dsec), nanos);
+                let attempts = (m.min(70) as u32).max(2) + 1;
+                for cap in [None, Some(Duration::from_secs(30)), Some(Duration::MAX)] {
+                    cfgs.push(Cfg { law: Law::Linear, step, attempts, cap, order: 0 });
+                    if m <= 65_536 {
+                        cfgs.push(Cfg { law: Law::Exponential(m), step, attempts: 4, cap, order: 0 });
+                    }
+                }
+            }
+        }
+    }
     let grid = cfgs.len();
     let n_random = if tier == "thorough" { 3_000_000 } else { 60_000 };
     let mut rng = Rng::new(seed ^ 0xC13);
